@@ -527,3 +527,36 @@ fn c02_header_counts_increment_exactly() {
     }
     kani::cover!(r.is_err(), "counter overflow refused");
 }
+
+// @tier: experimental
+// @timeout: 3000
+// @mem: 30
+// @funcs: StreamTarget::{new,append_slice,update_shim,as_stream_slice,as_dgram_slice}  (CBMC 6.11 crashes with status 139 on the 64 KiB arrays)
+// @bound: a stream target filled with 65530..=65535 message octets in one append, then up to two single-octet appends: an append succeeds exactly while the message stays within 65535 octets, and after every successful append the two-octet prefix equals the message length
+// @outside: truncation at this size; compressing targets at this size
+#[kani::proof]
+#[kani::unwind(4)]
+fn c02_stream_prefix_at_the_64k_boundary() {
+    static BIG: [u8; 65535] = [0; 65535];
+    let n: usize = kani::any();
+    kani::assume(n >= 65530 && n <= 65535);
+    let mut t = StreamTarget::new(FixedBufM::<65540> { data: [0; 65540], len: 0 }).unwrap();
+    assert!(t.append_slice(&BIG[..n]).is_ok());
+    let mut len = n;
+    let mut k = 0;
+    while k < 2 {
+        let r = t.append_slice(&[0xAB]);
+        if len + 1 <= 65535 {
+            assert!(r.is_ok());
+            len += 1;
+            let s = t.as_stream_slice();
+            assert!(s.len() == len + 2);
+            assert!((((s[0] as usize) << 8) | s[1] as usize) == len);
+        } else {
+            assert!(r.is_err());
+            break;
+        }
+        k += 1;
+    }
+    kani::cover!(len == 65535, "message of exactly 65535 octets");
+}
